@@ -77,6 +77,7 @@ SERVER_WF = ('self.ping_timeout >= 0 and self.ping_interval >= 0 and '
              '0 <= self.sequence_number and self.sequence_number < 16777216 and '
              '(self.cookie is None or isinstance(self.cookie, str))')
 c = REG.contract('server.Server._handle_connect', props=['C05', 'C11', 'C16', 'C06'])
+c.shards = 8
 c.param('self', Ref('Server')).param('environ', ENV).param('start_response', SR)
 c.param('transport', STR).param('jsonp_index', [NONE, INT])
 c.returns_cases(('http-response', "transport != 'websocket' or "
@@ -94,6 +95,30 @@ c.ensures('connect-handler-first-and-once',
           "events[0:len(old(events))] == old(events) and len(events) > len(old(events)) and "
           "ev_handler(events[len(old(events))]) == self.handlers['connect'] and "
           "ev_arg0(events[len(old(events))]) == " + NEW_SID, props=['C05', 'C11'])
+NEWQ = 'self.sockets[' + NEW_SID + '].queue'
+c.ensures('rejected-id-never-addressable', "implies(transport == 'polling' and "
+          "result['status'] == '401 UNAUTHORIZED', " + NEW_SID + " not in self.sockets)",
+          props=['C11', 'C16'])
+c.ensures('status-is-200-401-or-400', "implies(transport == 'polling', result['status'] in "
+          "('200 OK', '401 UNAUTHORIZED', '400 BAD REQUEST'))", props=['C11', 'C15'])
+c.ensures('accepted-session-created', "implies(transport == 'polling' and "
+          "result['status'] == '200 OK', " + NEW_SID + " in self.sockets and "
+          "self.sockets[" + NEW_SID + "].connected and self.sockets[" + NEW_SID + "].sid == " +
+          NEW_SID + " and not self.sockets[" + NEW_SID + "].upgraded)", props=['C11'])
+c.ensures('open-packet-first-and-reflects-configuration',
+          "implies(transport == 'polling' and result['status'] == '200 OK', "
+          "len(" + NEWQ + ".taken) >= 1 and " + NEWQ + ".taken[0].packet_type == 0 and " +
+          NEWQ + ".taken[0].data == open_info(self, " + NEW_SID + ", transport))",
+          props=['C11'])
+c.ensures('response-carries-the-taken-packets',
+          "implies(transport == 'polling' and result['status'] == '200 OK' and "
+          "jsonp_index is None, result['response'] == payload_text(" + NEWQ + ".taken, "
+          "len(" + NEWQ + ".taken)).encode('utf-8'))", props=['C11', 'C03'])
+c.ensures('cookie-exactly-when-configured',
+          "implies(transport == 'polling' and result['status'] == '200 OK', "
+          "result['headers'] == ([('Set-Cookie', cookie_value(" + NEW_SID + ", "
+          "{'name': self.cookie, 'path': '/', 'SameSite': 'Lax'}))] if self.cookie else []) + "
+          "[('Content-Type', 'text/plain; charset=UTF-8')])", props=['C11'])
 c.ensures('polling-accept-or-reject-adds-no-other-event', "implies(transport == 'polling', "
           "len(events) == len(old(events)) + 1)", props=['C05'])
 c.modifies('self.sockets', 'self.sequence_number', 'self.start_service_task',
